@@ -24,7 +24,7 @@ class _Req:
         self._r = getattr(f, '_verif_req', None) or {}
 
     def __getattr__(self, name):
-        if name in ('valence', 'score', 'unscored', 'muted', 'kind', 'category', 'priority', 'correct') and name in self._r:
+        if name in ('valence', 'score', 'unscored', 'muted', 'kind', 'category', 'priority', 'correct', 'fields') and name in self._r:
             return self._r[name]
         return getattr(self._f, name)
 
